@@ -538,13 +538,110 @@ def handoff_case(seed):
     return fails, len(order)
 
 
+def slow_request_case(args):
+    """ONE request stays inside the engine for `stall` seconds (its key generation blocks - an entropy-starved host, a
+    hardware module, a huge key) while another session's request arrives and has to WAIT, however long that takes:
+    both are answered as in the serial order [slow, waiting], each object belongs to the session that asked for it, each
+    is evaluated under its own protocol version.  Implementation alone."""
+    import time
+    import impl_engine
+    from gen_engine import hexof
+    seed, stall = args
+    r = random.Random(seed)
+    va, vb = r.choice([(20, 12), (12, 20), (14, 10), (20, 14)])
+    attrs = lambda name: [{"name": "Cryptographic Algorithm", "index": None, "value": {"k": "enum", "v": 3}},
+                          {"name": "Cryptographic Length", "index": None, "value": {"k": "int", "v": 128}},
+                          {"name": "Cryptographic Usage Mask", "index": None, "value": {"k": "int", "v": 12}},
+                          {"name": "Name", "index": 0, "value": {"k": "name", "v": name, "t": 1}}]
+    E = impl_engine.ImplEngine()
+    fails = []
+    try:
+        eng = E.engine
+        ce = eng._cryptography_engine
+        inside, go = threading.Event(), threading.Event()
+        orig = ce.create_symmetric_key
+        first = [True]
+
+        def slow_create(*a, **kw):
+            if first[0]:
+                first[0] = False
+                inside.set()
+                go.wait(stall + 60)
+            return {"value": bytes.fromhex(hexof(16, rnd=r)), "format": impl_engine.enums.KeyFormatType.RAW}
+        ce.create_symmetric_key = slow_create
+        res = {}
+
+        def client(user, ver, name):
+            rq = {"version": ver, "ts": None, "async": None, "bopt": None, "maxsize": None,
+                  "items": [{"op": "create", "bid": None, "crypto": None, "otype": 2, "tmpl": {"tnames": 0, "attrs": attrs(name)}}]}
+            t0 = time.time()
+            try:
+                resp, _, pv = eng.process_request(impl_engine.build_request(rq), (user, None))
+                bi = resp.batch_items[0]
+                ok = bi.result_status.value == impl_engine.enums.ResultStatus.SUCCESS
+                res[user] = {"ok": ok, "uid": getattr(bi.response_payload.unique_identifier, "value", bi.response_payload.unique_identifier) if ok else None,
+                             "reason": None if ok else bi.result_reason.value.name, "version": [pv.major, pv.minor],
+                             "wall": round(time.time() - t0, 1)}
+            except Exception as e:
+                res[user] = {"ok": False, "exception": "%s: %s" % (type(e).__name__, str(e)[:160]), "wall": round(time.time() - t0, 1)}
+        ta = threading.Thread(target=client, args=("alice", va, "alices-key"))
+        tb = threading.Thread(target=client, args=("bob", vb, "bobs-key"))
+        ta.start()
+        if not inside.wait(30):
+            return [("c10:slow-request-harness", "the slow request never reached the backend")], 0
+        tb.start()
+        tb.join(stall)            # bob has to wait all this time
+        bob_early = dict(res.get("bob") or {}) if "bob" in res else None
+        go.set()
+        ta.join(60)
+        tb.join(60)
+        ce.create_symmetric_key = orig
+        if ta.is_alive() or tb.is_alive():
+            return [("c10:slow-request-never-finished", "a client thread did not finish: %s" % res)], 2
+        what = "alice (KMIP %d) stays %ds in the engine, bob (KMIP %d) arrives meanwhile: %s" % (va, stall, vb, json.dumps(res, sort_keys=True))
+        if bob_early is not None:
+            fails.append(("c10:waiting-request-answered-before-its-turn", "bob was answered while alice's request was still inside "
+                          "the engine (%s): %s" % (json.dumps(bob_early), what)))
+        for u, v in (("alice", va), ("bob", vb)):
+            if not res.get(u, {}).get("ok"):
+                fails.append(("c10:slow-request-failed:%s" % u, "%s's Create did not succeed: %s" % (u, what)))
+            elif res[u]["version"] != [v // 10, v % 10]:
+                fails.append(("c10:slow-request-version:%s" % u, "%s was answered under version %s: %s" % (u, res[u]["version"], what)))
+        dump = E.dump()
+        owners = dict((str(o["uid"]), o["owner"]) for o in dump["objs"])
+        names = dict((str(o["uid"]), o["names"]) for o in dump["objs"])
+        for u in ("alice", "bob"):
+            uid = res.get(u, {}).get("uid")
+            if uid is not None and owners.get(str(uid)) != u:
+                fails.append(("c10:object-stored-under-other-identity", "%s's object %s belongs to %r: %s" % (u, uid, owners.get(str(uid)), what)))
+        if sorted(owners.values(), key=str) != ["alice", "bob"][:len(owners)] and len(owners) == 2:
+            fails.append(("c10:object-stored-under-other-identity", "two Creates by alice and bob left owners %s: %s" % (sorted(owners.values(), key=str), what)))
+        if len(owners) != sum(1 for u in ("alice", "bob") if res.get(u, {}).get("ok")):
+            fails.append(("c10:stored-objects-differ-from-answers", "%d objects stored, answers: %s" % (len(owners), what)))
+    finally:
+        E.close()
+    return fails, 2
+
+
+def _pool_case(a):
+    return slow_request_case(a[1]) if a[0] == "slow" else handoff_case(a[1])
+
+
 def handoff_part(ctx):
     import multiprocessing
     n = 40 if ctx.tier == "quick" else 800
     seeds = [ctx.seed * 6007 + 5000 + i for i in range(n)]
+    # slow requests first (they take their stall time whatever else happens): 12 s at quick, up to 45 s at thorough
+    slow = [(ctx.seed * 31 + k, st) for k, st in enumerate([12, 12] if ctx.tier == "quick" else [12, 20, 31, 45, 12, 20])]
     with multiprocessing.get_context("fork").Pool(8) as pool:
-        res = pool.map(handoff_case, seeds)
+        allres = pool.map(_pool_case, [("slow", a) for a in slow] + [("handoff", sd) for sd in seeds], chunksize=1)
+    sres, res = allres[:len(slow)], allres[len(slow):]
     steps = 0
+    for a, (fails, k) in zip(slow, sres):
+        steps += k
+        for sig, what in fails:
+            ctx.report(sig, what, {"kind": "slow-request", "seed": a[0], "stall": a[1]})
+    ctx.coverage["slow_request_schedules"] = [list(a) for a in slow]
     for sd, (fails, k) in zip(seeds, res):
         steps += k
         for sig, what in fails:
@@ -569,6 +666,11 @@ def replay(ctx, rep):
                 print("  %s: %s" % (sig, what[:400]))
             bad += 1 if fails else 0
         return bad == 0
+    if r.get("kind") == "slow-request":
+        fails, _k = slow_request_case((r["seed"], r["stall"]))
+        for sig, what in fails:
+            print("  %s: %s" % (sig, what[:500]))
+        return not fails
     if r.get("kind") == "session-threads":
         bad = 0
         for _ in range(10):
